@@ -60,7 +60,7 @@ var pureAllow = []string{
 	"k8s.io/apimachinery/pkg/util/runtime", "k8s.io/apimachinery/pkg/util/validation/field", "k8s.io/apimachinery/pkg/labels",
 	"github.com/kubewharf/kubegateway/pkg/gateway/metrics", "github.com/kubewharf/kubegateway/pkg/ratelimiter/metrics",
 	"github.com/kubewharf/kubegateway/pkg/util/tracing", "github.com/gobeam/stringy", "encoding/json", "bytes", "unicode/utf8",
-	"k8s.io/apimachinery/pkg/runtime/schema", "k8s.io/apimachinery/pkg/types", "crypto/x509", "encoding/pem", "crypto/tls", "hash/fnv", "regexp",
+	"k8s.io/apimachinery/pkg/util/sets", "k8s.io/kubernetes/pkg/apis/core/validation", "k8s.io/apimachinery/pkg/api/validation", "k8s.io/client-go/util/cert", "k8s.io/client-go/util/keyutil", "k8s.io/apimachinery/pkg/runtime/schema", "k8s.io/apimachinery/pkg/types", "crypto/x509", "encoding/pem", "crypto/tls", "hash/fnv", "regexp",
 	"k8s.io/apiserver/pkg/endpoints/request", "k8s.io/apiserver/pkg/authentication/user", "k8s.io/apiserver/pkg/authentication/serviceaccount",
 	"context",
 }
@@ -1194,6 +1194,16 @@ func (fr *frame) loopInvariants(h *ssa.BasicBlock) []*Clause {
 	for _, c := range fr.contract.Invariants {
 		if c.Loop == fr.ordinal[h] {
 			out = append(out, c)
+		}
+	}
+	// implicit invariant of every range-over-slice loop: the hidden index is never below -1 (proved like any other)
+	if len(out) > 0 {
+		for _, in := range h.Instrs {
+			if phi, ok := in.(*ssa.Phi); ok && phi.Comment == "rangeindex" {
+				e, _ := ParseExpr("idx >= 0")
+				out = append(out, &Clause{Kind: "invariant", Label: "auto_idx", Loop: fr.ordinal[h], Stage: 1, Text: "idx >= 0", E: e})
+				break
+			}
 		}
 	}
 	return out
